@@ -393,6 +393,7 @@ class Program:
     def resolve(self, callee, norm, args, fr, eng):
         """-> (Fn | None, subst)"""
         raw = norm_ty(callee)
+        raw = re.sub(r'::<impl [^<>]*>$', '', raw)
         m = re.match(r'^<(.+?) as (.+)>::([\w]+)(<.*>)?$', raw)
         if m and find_top(raw[1:], ' as ') >= 0:
             k = find_top(raw[1:], ' as ') + 1
